@@ -54,6 +54,10 @@ PROJECTS = {
     "annotation-inside-file": ('int a ; include "f.qasm" ; int c ;', {"f.qasm": "@keep·this int b ; pragma·x·y int d ;"}),
     "pragma-ends-file": ('include "f.qasm" ; int b ;', {"f.qasm": "int a ; pragma·x·y"}),
     "not-global": ('int a ; if ( true ) { include "stdgates.inc" ; }', {}),
+    # include operands that are not file paths: a quoted string of 0/1 characters lexes as a bit string
+    "operand-bit-string": ('int a ; include "01" ; a = 1 ;', {"01": "int b ;"}),
+    "not-global-single-statement": ('int a ; if ( true ) include "stdgates.inc" ; a = 1 ;', {}),
+    "not-global-else-single-statement": ('int a ; if ( true ) a = 2 ; else include "stdgates.inc" ; a = 1 ;', {}),
     "not-global-while": ('int a ; while ( true ) { include "stdgates.inc" ; a = 1 ; }', {}),
 }
 
@@ -243,6 +247,10 @@ class H(semh.Base):
                 root = src.build(ex); errors = list(src.errors)
             hit = fam.parsed[key] = (root, errors)
         root, errors = hit
+        if errors and key[1] == "<main>" and self.task[0].startswith("operand-"):
+            # the real parse_source_and_includes walks the include statements of a main file BEFORE anyone looks at its syntax errors
+            self.main_errors = len(errors)
+            return [EnumV("Option", 1, [root]), VecV(["<syntax error>"] * len(errors)), UNIT]
         if errors:
             raise Unsupported("a project file does not parse cleanly: " + str(key))
         if len(key) == 2:
@@ -256,6 +264,7 @@ class H(semh.Base):
         st = fam.state
         st["files"] = dict(files); st["reads"] = []
         self.fulls = {}
+        self.main_errors = 0
         st["parse"] = lambda ex_, t: self.parse_tokens(ex_, (name, t.name), self.words(t.words))
         # ---- the project through the real include machinery
         main_ft = FileText("<main>", main)
@@ -263,6 +272,9 @@ class H(semh.Base):
         while isinstance(r, Ref):
             r = r.get()
         syntax_ast, included = r[0], r[1]
+        if getattr(self, "main_errors", 0):
+            ex.obligations += 1
+            return "syntax-errors-no-panic"      # analyze_source stops at the syntax errors; what had to hold is that the include walk did not panic
         srcval = [PathV(("nofile",)), "", syntax_ast, included]
         ctx = ex.run(kit.f_ctx_new, [PathV(("nofile",))])
         errs = ex.run(kit.f_sel_new, [PathV(("nofile",))])
